@@ -202,7 +202,16 @@ pub fn run(args: &RunArgs) -> i32 {
             }
             p.files.insert(format!("src/{}.graphql", AUX_FILE.0), AUX_FILE.1.to_string());
             crate::cli::materialize(&dir, &p);
-            let a: Vec<String> = ["--config-file", "graphql.config.yaml", "--output-format", "json", "generate"].iter().map(|x| x.to_string()).collect();
+            // the command line may repeat what the configuration file says (arguments override single settings of
+            // the file; everything else of the file stays in force): one of four forms per configuration
+            let mut a: Vec<String> = ["--config-file", "graphql.config.yaml", "--output-format", "json"].iter().map(|x| x.to_string()).collect();
+            match oi % 4 {
+                1 => a.extend(["--schema-output".to_string(), "./src/schema.d.ts".to_string()]),
+                2 => a.extend(["--schema".to_string(), "./schema/*.graphql".to_string()]),
+                3 => a.extend(["--operation".to_string(), "./src/*.graphql".to_string()]),
+                _ => {}
+            }
+            a.push("generate".to_string());
             let r = crate::cli::run(&dir, &a, &[], std::time::Duration::from_secs(60));
             cli_runs.fetch_add(1, Ordering::Relaxed);
             if r.code != Some(0) {
